@@ -178,6 +178,13 @@ const CONTEXTS: &[Ctxt] = &[
     Ctxt { name: "range assignment rhs", tmpl: "xs := [7, 8, 9]; xs[0:1] = v; print(xs)\n", accept: &[K::List, K::Str] },
     Ctxt { name: "type function subject", tmpl: "print(v->type())\n", accept: &[K::Bool, K::Int, K::Str, K::List, K::Obj, K::UFn, K::BFn] },
     Ctxt { name: "len subject", tmpl: "print(v->len())\n", accept: &[K::Str] },
+    Ctxt { name: "slot of an interpolated property name", tmpl: "print({$\"k${v}\": 1})\n", accept: &[K::Str] },
+    Ctxt { name: "slot of an interpolated key read", tmpl: "w := {\"ks\": 1, \"k\": 2}\nprint(w[$\"k${v}\"])\n", accept: &[K::Str] },
+    Ctxt { name: "slot of an interpolated key written", tmpl: "w := {}\nw[$\"k${v}\"] = 1\nprint(w)\n", accept: &[K::Str] },
+    Ctxt { name: "slot of an interpolated pattern name", tmpl: "{$\"k${v}\": p} := {\"ks\": 1, \"k\": 2}\nprint(p)\n", accept: &[K::Str] },
+    Ctxt { name: "list spread before a printing item", tmpl: "fn sh() { print(\"later\"); return 1; }\nq := [0, v.., sh()]\nprint(\"built\")\n", accept: &[K::List] },
+    Ctxt { name: "argument spread before a printing argument", tmpl: "fn sh() { print(\"later\"); return 1; }\nfn g(..r) { return r; }\nq := g(v.., sh())\nprint(\"built\")\n", accept: &[K::List] },
+    Ctxt { name: "object spread before a printing entry", tmpl: "fn sh() { print(\"later\"); return 1; }\nq := {v.., \"z\": sh()}\nprint(\"built\")\n", accept: &[K::Obj] },
     Ctxt { name: "parameter list pattern, empty body", tmpl: "fn g([p]) { }\ng(v)\nprint(\"called\")\n", accept: &[K::List] },
     Ctxt { name: "parameter object pattern, empty body", tmpl: "fn g({a}) { }\ng(v)\nprint(\"called\")\n", accept: &[K::Obj] },
     Ctxt { name: "anonymous parameter list pattern, empty body", tmpl: "g := fn ([p]) { }\ng(v)\nprint(\"called\")\n", accept: &[K::List] },
